@@ -62,6 +62,13 @@ def check_pixel(project: Project, rep, weight, kernel, sigma, skew, label):
         rep.unmodelled("PI-PIXEL", fi, fi.node, f"{tag}: image is not a 2-d array: {r!r}"[:200])
         return
     um = unmodelled_in(r.elem)
+    from .distances import leftover_placeholders
+    if not um and (leftover_placeholders(r.elem) or any(x[0] in ("in", "iv") and any(
+            isinstance(i_, tuple) and str(i_[0]).startswith("@") for i_ in (x[2] if x[0] == "in" else ((x[1], 0),)))
+            for x in sym.walk(r.elem))):
+        # a loop-carried placeholder, or an entry read at a position the evaluator could only name (not compute), is left
+        # in the pixel value: the loop summary did not close — nothing to compare
+        um = ["unmodelled:loop summary left a placeholder / a data-dependent position in the pixel value"]
     if um:
         if any("reshape-scrambles" in u for u in um):
             return
